@@ -23,7 +23,7 @@ CHECKS = {
             "Generated histories (gets, returns, takes, retains, closes), per-call fault scripts (ok / error / panic / gated / never) and thread-level pauses at the cfg(deadpool_verif) schedule points are executed against the real pool; live objects are counted by the objects' own constructors and destructors inside every Manager::create call, after every step and at every park. Finds overshoots of max_size that need a specific interleaving or fault sequence; establishes nothing beyond the explored bounds.",
             B, T + "ground-truth object ledger as oracle", "6 C01"),
     "C02": ("msim", "exploration",
-            "Same interpreter, weighted to failure paths followed by load. Oracles: at every quiescent point a getter may wait only if held + admitted getters >= max_size, free permits + held + admitted == max_size, users == held + pending; zero-wait gets at quiescent points must succeed when a slot is free; end-of-history capacity probe through the public API (max_size non-blocking gets succeed, one more times out); no foreign panic escapes get().",
+            "Same interpreter, weighted to failure paths followed by load; some scripts make a Manager::detach call of a get() panic (later calls must still work). A stage of histories with timeouts runs on the virtual clock twice: against the C10 model (only deviations that concern capacity or panics are reported) and as a model-free free run that ends with a capacity probe at rest. Oracles: at every quiescent point a getter may wait only if held + admitted getters >= max_size, free permits + held + admitted == max_size, users == held + pending; zero-wait gets at quiescent points must succeed when a slot is free; end-of-history capacity probe through the public API (max_size non-blocking gets succeed, one more times out); no foreign panic escapes get().",
             "liveness is judged at quiescent points of finite histories; " + B, T + "conservation invariants at quiescent points plus public-API capacity probe", "6 C02"),
     "C03": ("msim", "fault_enumeration",
             "Part A enumerates, for every generated configuration and quiescent prefix state, every await point of the next get() (slot wait, each pre_recycle hook, recycle, each post_recycle hook, create, each post_create hook, after 0..2 rejected idle objects) times every abandonment mode (future dropped while suspended, panic at the point, panic after resuming) and compares the pool before and after (differential: users, permits, max_size, size, idle queue order, status, detach/destroy ledger of the discarded objects). Part B runs random multi-task histories with frequent cancellations and panics under the C01/C02/C11 invariants and applies the same differential to every undisturbed abandoned call. The matrix is exhaustive per configuration; configurations and prefixes are sampled.",
@@ -32,7 +32,7 @@ CHECKS = {
             "Every get() is checked against the ordered call log of manager and hooks attributed to it: attempts are a prefix of pre_recycle[0..] -> recycle -> post_recycle[0..] or create -> post_create[0..] in registration order, nothing runs after a failing step, a returned object's last attempt is complete and all-ok, rejected objects are detached exactly once, destroyed and never seen again, and an Err carries exactly the scripted create / post_create error (unique serial numbers). Scripts assign outcomes to the n-th call of every callback.",
             B, "stateful property-based testing (proptest) over fault scripts; call-log grammar oracle", "6 C04"),
     "C06": ("msim", "exploration",
-            "close() is placed anywhere in generated histories, also on its own thread parked between its statements while returns, takes, gets, resizes and retains run. Oracles once close() has returned: waiters were woken and fail with Closed, later gets never yield an object, is_closed stays true, resize changes nothing, at quiescence no idle object remains and status().max_size is 0, objects returned later are destroyed, surviving objects can be used and dropped after every pool handle is gone.",
+            "close() is placed anywhere in generated histories (also after the idle queue was rotated so that its ring buffer wraps, and as the operation started while retain() sits in its predicate), also on its own thread parked between its statements while returns, takes, gets, resizes and retains run. Oracles once close() has returned: waiters were woken and fail with Closed, later gets never yield an object, is_closed stays true, resize changes nothing, at quiescence no idle object remains and status().max_size is 0, objects returned later are destroyed, surviving objects can be used and dropped after every pool handle is gone.",
             B, T + "post-close invariants as oracle", "6 C06"),
     "C07": ("msim", "exploration",
             "Histories of resize(n) interleaved with gets in every phase, returns, takes, retains and failing gets, at task and thread level, judged against an ideal capacity model that is independent of the implementation's arithmetic: free permits at every quiescent point must equal max(0, n - in_use), surplus objects are discarded on return, take never frees a surplus slot, end probe yields exactly n objects. Deviations are accepted only when they are exactly what the known arithmetic of Pool::resize produces for a listed known finding (KF1-KF3); anything else is a violation.",
@@ -72,7 +72,7 @@ CHECKS = {
             "deadpool-sqlite (:memory:), deadpool-r2d2 (scripted ManageConnection with has_broken / is_valid per connection) and deadpool-diesel (SqliteConnection :memory:, Fast / Verified / CustomQuery / CustomFunction) are driven through histories of get, return, interact (ok / panic / cancelled gated closure that panics or quietly breaks the connection when released: before the return, between return and next get, or during the next get's recycle) and mark-broken (r2d2 flags, dangling diesel transaction, failing custom function), on pools with or without harmless hooks. Each connection carries an identity the pool cannot change (PRAGMA user_version or a serial number); no hand-out may show an identity on which a closure panicked or that was reported broken / invalid, the get meeting such a connection must succeed, and the end probe takes max_size healthy connections.",
             "sqlite has no notion of a broken connection (poisoning only); a get blocked behind a gated closure is released after 30 ms by opening all gates, no verdict depends on the wall clock", "stateful property-based testing (proptest) over three SyncWrapper-based pools; immutable connection identity as oracle", "6 C15"),
     "C05": ("usim", "exploration",
-            "Histories of get / try_get / timeout_get / add / try_add / remove / try_remove / take / return / cancel on pools built by new, from_config and From<Vec>, with thread-level pauses between the statements of Object::drop, Object::take, _add, try_get and close. Identity-tagged objects: after every step and at every park each id is in exactly one place (queue, one caller, handed back), none is destroyed by an open pool, queued + checked out <= max_size; sequential model for every call made at a quiescent point (try_add Timeout iff full with the same object back, add pending iff full, try_get Timeout iff empty); at rest status() and both semaphores equal ground truth.",
+            "Histories of get / try_get / timeout_get / add / try_add / remove / try_remove / take / return / cancel on pools built by new, from_config and From<Vec>, with thread-level pauses between the statements of Object::drop, Object::take, _add, try_get and close; an object may also come back while its holder unwinds from a panic. Identity-tagged objects: after every step and at every park each id is in exactly one place (queue, one caller, handed back), none is destroyed by an open pool, queued + checked out <= max_size; sequential model for every call made at a quiescent point (try_add Timeout iff full with the same object back, add pending iff full, try_get Timeout iff empty); at rest status() and both semaphores equal ground truth.",
             "trusted: the harness's ownership ledger; schedule points between statements only; max_size <= 4, <= 6 pending futures", "stateful property-based testing (proptest) with generated schedules; conservation ledger and sequential reference model", "6 C05"),
     "C12": ("usim", "exploration",
             "Same interpreter with close() anywhere (plus a stage of unmanaged histories with a runtime and finite timeouts on the virtual clock, judged for panics and for Closed after close()), weighted to getters parked between permit and pop and to _add / Object::drop parked between their steps while close runs. Every call is wrapped in catch_unwind; after close() returned, waiters must have been woken and fail with Closed, adders get the same object back, later calls fail with Closed, the queue is empty and size equals the objects still checked out, objects returned later are destroyed.",
